@@ -9,8 +9,13 @@
    and cool-down within i64 milliseconds, u64 values, a key callback that stays inside its view).
    All theorems quantify over every operation list, every pair of slot counts inside the geometry
    [cfg_ok] (offsets fit i32) and both build modes. *)
-Require Import V.Base.MachineInt V.Generated.GenConsts V.Model.Counters V.Oracle.C15Oracle
-               V.Proofs.CountersProofs V.Proofs.C15OracleProofs V.Proofs.C15Witness.
+Require Import V.Base.MachineInt.
+Require Import V.Generated.GenConsts.
+Require Import V.Model.Counters.
+Require Import V.Oracle.C15Oracle.
+Require Import V.Proofs.CountersProofs.
+Require Import V.Proofs.C15OracleProofs.
+Require Import V.Proofs.C15Witness.
 Open Scope Z_scope.
 
 (* the whole oracle on the model's own observations: the predicate used to judge the implementation
